@@ -1,2 +1,3 @@
 import MoqModel.Render
 import MoqModel.Sexp
+import MoqModel.WF
